@@ -3,16 +3,11 @@ package verifsim
 import (
 	"encoding/binary"
 	"fmt"
-	"math/rand/v2"
 	"net"
 	"time"
 
-	"github.com/cbeuw/Cloak/internal/client"
-	"github.com/cbeuw/Cloak/internal/common"
-	mux "github.com/cbeuw/Cloak/internal/multiplex"
 	"github.com/cbeuw/Cloak/internal/server"
 	"github.com/cbeuw/Cloak/internal/simsync"
-	"github.com/cbeuw/Cloak/verifsim/simnet"
 )
 
 // ---- C14, whole system: the client's UDP router (RouteUDP) ----
@@ -172,41 +167,34 @@ func runC14UDP(c *Ctx, scAny any) {
 			})
 		}
 	})
-	rng := rand.New(rand.NewPCG(sc.Seed, 23))
-	local, remote, auth, err := w.ClientConfig(cp, rng)
-	if err != nil {
-		c.Fail("config", "rejected", "%v", err)
-		return
-	}
-	d := &simnet.Dialer{Net: c.Net, LocalIP: "10.0.6.1", Tag: "front", KeepAlive: remote.KeepAlive}
-	seshMaker := func() *mux.Session {
-		a := auth
-		quad := make([]byte, 4)
-		common.RandRead(a.WorldState.Rand, quad)
-		a.SessionId = binary.BigEndian.Uint32(quad)
-		return client.MakeSession(remote, a, d)
-	}
-	sock := c.Net.NewPacketSock("10.0.7.1:1984")
-	simsync.Go("h:route-udp", func() {
-		client.RouteUDP(func() (net.PacketConn, error) { return sock, nil }, local.Timeout, remote.Singleplex, seshMaker)
-	})
+	// the shipped ck-client main(): configuration file -> ProcessRawConfig ->
+	// dialer, session maker -> RouteUDP on the (simulated) local UDP socket
+	prog := w.StartCkClient(c, cp)
 	gotRep := 0
 	for s, sends := range sc.Sources {
 		s, sends := s, sends
 		// local applications of one host: same address, different ports
 		addr := &net.UDPAddr{IP: net.IPv4(10, 0, 7, 10), Port: 5000 + s}
 		simsync.Go("h:udp-app-send", func() {
+			prog.AwaitReady()
+			if prog.Sock == nil {
+				return
+			}
 			for i, sd := range sends {
 				if sd.GapMS > 0 {
 					Sleep(time.Duration(sd.GapMS) * time.Millisecond)
 				}
-				sock.Inject(addr, udpDatagram(key, s, i, 0xffff, sd.Replies, sd.ReplySize, sd.Size))
+				prog.Sock.Inject(addr, udpDatagram(key, s, i, 0xffff, sd.Replies, sd.ReplySize, sd.Size))
 			}
 		})
 		simsync.Go("h:udp-app-recv", func() {
 			seen := map[[2]int]bool{}
+			prog.AwaitReady()
+			if prog.Sock == nil {
+				return
+			}
 			for {
-				b, ok := sock.Recv(addr)
+				b, ok := prog.Sock.Recv(addr)
 				if !ok {
 					return
 				}
@@ -241,7 +229,7 @@ func runC14UDP(c *Ctx, scAny any) {
 		return
 	}
 	if end == simsync.EndQuiescent && (gotReq < wantReq || gotRep < wantRep) {
-		fail("lost", "healthy unordered session, everything quiescent: %d of %d requests reached the upstream, %d of %d replies reached the applications\n%s", gotReq, wantReq, gotRep, wantRep, c.W.DumpTasks())
+		fail("lost", "healthy unordered session, everything quiescent: %d of %d requests reached the upstream, %d of %d replies reached the applications (ck-client exit: %q)\n%s", gotReq, wantReq, gotRep, wantRep, prog.Exit, c.W.DumpTasks())
 		return
 	}
 	if end == simsync.EndDone {
